@@ -134,9 +134,9 @@ func checkParseType(res *lib.Result, in input, o Obs) (violated bool) {
 			v("resolve-returns-type", "returns a nil Type without raising an error")
 		}
 	case "timeout":
-		v("resolve-terminates", "does not return within "+singleDeadline.String()+" (hang)", hangTags(s, "hang")...)
+		v("resolve-terminates", "does not return within "+singleDeadline.String()+" (hang)", "hang")
 	case "crash":
-		v("resolve-terminates", "the process died (memory limit / fatal error)", hangTags(s, "crash")...)
+		v("resolve-terminates", "the process died (memory limit / fatal error)", "crash")
 	case "runtime":
 		v("resolve-no-runtime-fault", "a Go runtime fault escapes: "+o.Msg, "raw")
 	case "reported":
@@ -150,15 +150,6 @@ func checkParseType(res *lib.Result, in input, o Obs) (violated bool) {
 		v("resolve-reported-error", "panics with a value that is not a reported error ("+o.Class+"): "+o.Msg)
 	}
 	return
-}
-
-// hangTags: the tag of the open finding variant-alias-cycle (known_findings/C06.json) is given to exactly the hangs /
-// crashes on a type set one of whose members is a Variant over members of the set (gentypeset.go variantOverMembers).
-func hangTags(s, tag string) []string {
-	if variantOverMembers(s) {
-		return []string{tag, "variant-alias-cycle"}
-	}
-	return []string{tag}
 }
 
 type family struct {
@@ -485,7 +476,8 @@ func families(cfg *lib.Config, rng *lib.Rng) []family {
 		add("resolve-typeset-pairs", "parsetype", 0, resolveTypeSetPairs())
 		add("resolve-typeset-random", "parsetype", 0, resolveTypeSetRandom(sc(6000, 100000), rng))
 		add("resolve-new-from-hash", "parsetype", 0, resolveNewFromHash(th))
-		add("resolve-typeset-known", "parsetype", 0, typeSetKnown)
+		add("resolve-typeset-variant-cycle", "parsetype", 0, typeSetVariantCycles())
+		add("resolve-typeset-illegal-parent", "parsetype", 0, typeSetIllegalParents())
 	}
 	return fams
 }
